@@ -10,7 +10,7 @@
    Every theorem below is stated on the GENERATED definitions; the first block proves them equal to the model,
    the last block proves the evaluated wrappers equal to them.
    Oracles: try_fit4 (get_instance + fit + scipy kstest of one candidate), refit, instantiable, fit_dist, import_class. *)
-From Coq Require Import List Bool QArith ZArith String Lia.
+From Coq Require Import List Bool QArith ZArith String Lia Permutation.
 From Cop Require Import Model.Select Spec.SelectProofs.
 From CopRun Require Import C05_eval Gen_classtree Gen_select Gen_gausscols.
 Import ListNotations.
@@ -188,6 +188,59 @@ Proof.
   destruct (gen_select_univariate cand try_fit4 cands) as [|m0] eqn:E; [discriminate|].
   destruct (refit m0) eqn:Er; inversion H; subst. split; [exact Er|].
   apply C05_argmin. exact E.
+Qed.
+
+(* Order independence (added session 5).  The candidate ORDER decides only which of several equally good
+   candidates wins: for any two orderings of the same candidates, (a) either both select nothing or both select
+   something, and (b) the KS statistics of the two selected candidates are equal - the minimum over the
+   candidates that fitted.  So no re-ordering of `candidates` (e.g. of the class tree walk) can make the
+   selected model worse. *)
+Theorem C05_none_order_independent : forall cand (try_fit4 : cand -> outcome) l1 l2,
+  Permutation l1 l2 ->
+  (gen_select_univariate cand try_fit4 l1 = PyNone <-> gen_select_univariate cand try_fit4 l2 = PyNone).
+Proof.
+  intros cand try_fit4 l1 l2 HP. rewrite <- !C05_all_fail. split; intros H m Hin.
+  - apply H. apply (Permutation_in m (Permutation_sym HP)). exact Hin.
+  - apply H. apply (Permutation_in m HP). exact Hin.
+Qed.
+
+Lemma C05_selected_le_all : forall cand (try_fit4 : cand -> outcome) l m k m' k',
+  gen_select_univariate cand try_fit4 l = FreshInstance m -> try_fit4 m = Ks k ->
+  In m' l -> try_fit4 m' = Ks k' -> k <= k'.
+Proof.
+  intros cand try_fit4 l m k m' k' Hsel Hk Hin Hk'.
+  destruct (C05_argmin cand try_fit4 l m Hsel) as [i [k0 [_ [Hk0 Hmin]]]].
+  rewrite Hk in Hk0. inversion Hk0; subst k0.
+  destruct (In_nth_error l m' Hin) as [j Hj].
+  exact (proj1 (Hmin j m' k' Hj Hk')).
+Qed.
+
+Theorem C05_min_ks_order_independent : forall cand (try_fit4 : cand -> outcome) l1 l2 m1 m2 k1 k2,
+  Permutation l1 l2 ->
+  gen_select_univariate cand try_fit4 l1 = FreshInstance m1 ->
+  gen_select_univariate cand try_fit4 l2 = FreshInstance m2 ->
+  try_fit4 m1 = Ks k1 -> try_fit4 m2 = Ks k2 -> k1 == k2.
+Proof.
+  intros cand try_fit4 l1 l2 m1 m2 k1 k2 HP H1 H2 Hk1 Hk2.
+  assert (In1 : In m1 l1).
+  { destruct (C05_argmin cand try_fit4 l1 m1 H1) as [i [k [Hn _]]]. exact (nth_error_In l1 i Hn). }
+  assert (In2 : In m2 l2).
+  { destruct (C05_argmin cand try_fit4 l2 m2 H2) as [i [k [Hn _]]]. exact (nth_error_In l2 i Hn). }
+  apply Qle_antisym.
+  - apply (C05_selected_le_all cand try_fit4 l1 m1 k1 m2 k2 H1 Hk1); [|exact Hk2].
+    apply (Permutation_in m2 (Permutation_sym HP)). exact In2.
+  - apply (C05_selected_le_all cand try_fit4 l2 m2 k2 m1 k1 H2 Hk2); [|exact Hk1].
+    apply (Permutation_in m1 HP). exact In1.
+Qed.
+
+(* non-vacuity: two orderings of three candidates with a tie select different candidates with equal statistics *)
+Example C05_demo_order :
+  let f := fun m : nat => match m with 0%nat => Ks (1#2) | 1%nat => Ks (1#4) | 2%nat => Ks (2#8) | _ => Raised end in
+  gen_select_univariate nat f [0;1;2]%nat = FreshInstance 1%nat /\
+  gen_select_univariate nat f [2;0;1]%nat = FreshInstance 2%nat /\ Permutation [0;1;2]%nat [2;0;1]%nat.
+Proof.
+  split; [reflexivity|]. split; [reflexivity|].
+  apply Permutation_sym. apply (Permutation_cons_app [0;1]%nat [] 2%nat). simpl. apply Permutation_refl.
 Qed.
 
 (* ================================================================== *)
@@ -406,6 +459,8 @@ Print Assumptions C05_argmin.
 Print Assumptions C05_all_fail.
 Print Assumptions C05_fit_ok.
 Print Assumptions C05_skips_failures.
+Print Assumptions C05_none_order_independent.
+Print Assumptions C05_min_ks_order_independent.
 Print Assumptions C05_tree_is_repo_tree.
 Print Assumptions C05_candidate_lists.
 Print Assumptions C05_filters_sound.
